@@ -14,7 +14,7 @@ QUICK_TYPES = ["u8", "u32", "Ipv4Net", "Ipv6Net"]
 MUT = ["Insert", "Remove", "RemoveKeepTree", "RemoveChildren", "Retain", "Clear"]
 EXACT = ["Get", "GetKV", "Contains"]
 STATE_INV = ["InvWF", "InvPartition", "InvCount", "InvRefines", "InvCanon", "EmitState"]
-STEP_PROPS = ["PropRet", "PropGrow", "PropShape"]
+STEP_PROPS = ["PropRet", "PropGrow", "PropShape", "PropAcct"]
 
 
 def tset(xs):
@@ -215,6 +215,10 @@ def plan(prop, tier):
                     PairJob("c19_lc", IRK, IR, ops, n, 1 if q else 2, targets=mm, vals_a="{1,2}", vals_b="{1,2}"),
                     PairJob("c19_cl", IR, IRK, ops, 1 if q else 2, n, targets=mm, vals_a="{1,2}", vals_b="{1,2}"),
                     PairJob("c19_sets", IRK, IR, ops, 2, 2 if q else 3, targets=ss, vals_a="{1}", vals_b="{1}"),
+                    # equality must not depend on how the contents came about, in particular not on the
+                    # cached counter that TrieViewMut::set / remove leave behind (finding F4)
+                    PairJob("c19_views", ["Insert", "ViewRemove", "ViewSet", "RemoveKeepTree"], IR, ops, 2, 2, nodes_a=4, targets=mm,
+                            vals_a="{1}", vals_b="{1}"),
                     # representations that differ only in host bits are different keys for the key type's own equality
                     PairJob("c19_hosts", IR, IR, ops, 2, 2, hosts='{"0","2"}', nodes_a=3, nodes_b=3, timeout=300,
                             targets=[(t, "map-map", "plain") for t in (["u32", "Ipv4Net"] if q else [x for x in ptypes if "Cidr" not in x])]
@@ -222,8 +226,8 @@ def plan(prop, tier):
                     TableJob("c19_single", MUT + ["CloneCheck", "Collect", "Serde"], ["CloneCheck", "Collect", "Serde"],
                              targets=both)]
         return [PairJob(prop.lower() + "_cc", IR, IR, ops, 3, 3, targets=pt),
-                PairJob(prop.lower() + "_lc", IRK, IR, ops, n, 1 if q else 2, targets=pt),
-                PairJob(prop.lower() + "_cl", IR, IRK, ops, 1 if q else 2, n, targets=pt)]
+                PairJob(prop.lower() + "_lc", IRK, IR, ops, n, 2, nodes_a=4 if q else 6, targets=pt),
+                PairJob(prop.lower() + "_cl", IR, IRK, ops, 2, n, nodes_b=4 if q else 6, targets=pt)]
     if prop == "C18":
         hostful = [t for t in types if "Cidr" not in t]
         obs = ["GetKV", "Lpm", "Spm", "Cover", "Children", "Iter", "ViewDesc"]
@@ -573,6 +577,8 @@ def conclude(prop, tier, t0, jobs, tlc_results, reports, traces=()):
                                             expected=mm.get("expected"), observed=mm.get("got"), row=mm.get("row")))
         print(f"VIOLATION property={prop} replay={path}")
         print(f"  {mm['kind']} on {mm['e'].get('a')} [{mm['ptype']}/{mm['coll']}]: expected {json.dumps(mm.get('expected'))[:300]} got {json.dumps(mm.get('got'))[:300]}")
+    if prop == "C16":
+        cov["unbounded_histories"] = vlib.apalache_accounting()
     vlib.write_evidence(prop, tier, LEVEL[prop], cov, time.time() - t0, viol,
                         ["TLC explores the bounded universe exhaustively (state identity up to slot renaming)",
                          "harness projection (bit conversion, view walk) is correct; it is independent of the Prefix impls",
